@@ -1,7 +1,8 @@
 //! C03 — replay fidelity.  (a) schema-driven frame documents through the real serde codec of rip-kernel vs
 //! the schema-driven model coq/Model/Wire.v (decode, re-encode, stream kind compared inside Coq), plus the
 //! independent round-trip oracle on the implementation; (b) histories on the real ContinuityStore /
-//! SessionEngine comparing the four views frame for frame (module hist).
+//! SessionEngine comparing the four views frame for frame, during the history and at its end (module hist);
+//! (c) store level: a frame is on disk for a fresh reader as soon as `EventLog::append` has returned.
 use rip_kernel::{Event, EventKind, StreamKind};
 use rv::*;
 use serde_json::{json, Value};
@@ -739,6 +740,113 @@ fn run_impl(doc_text: &str) -> ImplObs {
     let pretty = serde_json::to_string_pretty(&[ev.clone()]).ok();
     ImplObs { pretty, t1: Some(t1), err: None, ok: true, re, kind: kind_code(ev.stream_kind()), violation }
 }
+/// Store level, every frame type: when `EventLog::append` has returned, a reader that shares nothing with
+/// the writer (a new file handle; a second `EventLog` on the same path) finds the frame, as the last line,
+/// byte for byte what the codec writes.  "Replaying the store from disk reproduces every frame a live
+/// subscriber receives" holds at every moment only if this does: the emitters publish a frame and append
+/// it in one step and nothing else carries it to the disk.
+fn store_oracle(docs: &[&str], seed: u64, res: &mut RunResult) {
+    use std::io::{Read, Seek, SeekFrom};
+    let scratch = Scratch::new("c03log");
+    let path = scratch.path().join("data").join("events.jsonl");
+    let log = match rip_log::EventLog::new(&path) {
+        Ok(l) => l,
+        Err(e) => {
+            res.notes.push(format!("store oracle: cannot create a log: {e}"));
+            return;
+        }
+    };
+    let mut offset: u64 = 0;
+    let mut appended: Vec<String> = Vec::new();
+    let mut reported = false;
+    for (i, text) in docs.iter().enumerate() {
+        let Ok(ev) = serde_json::from_str::<Event>(text) else { continue };
+        let Ok(line) = serde_json::to_string(&ev) else { continue };
+        if serde_json::from_str::<Event>(&line).is_err() {
+            // frames the reader refuses (open findings W2) would make every later replay of this log fail
+            continue;
+        }
+        let r = std::panic::catch_unwind(std::panic::AssertUnwindSafe(|| log.append(&ev)));
+        match r {
+            Err(_) => {
+                res.impl_panics += 1;
+                res.oracle_violations.push(OracleViolation { case_id: i as i64, what: "EventLog::append panicked".into(), class: "panic".into(), replay: json!({"doc": clip(text), "seed": seed}) });
+                return;
+            }
+            Ok(Err(e)) => {
+                res.bump("store.append_refused");
+                res.notes.push(format!("store oracle: append refused: {e}"));
+                continue;
+            }
+            Ok(Ok(())) => {}
+        }
+        appended.push(line.clone());
+        res.oracle_checks += 1;
+        res.bump("store.frames_appended_then_read_by_a_fresh_reader");
+        let mut fresh = Vec::new();
+        let read = std::fs::File::open(&path).and_then(|mut f| {
+            f.seek(SeekFrom::Start(offset))?;
+            f.read_to_end(&mut fresh)
+        });
+        let want = format!("{line}\n");
+        if read.is_err() || fresh != want.as_bytes() {
+            if !reported {
+                reported = true;
+                let ty = serde_json::to_value(&ev).ok().and_then(|v| v.get("type").and_then(|t| t.as_str()).map(|s| s.to_string())).unwrap_or_default();
+                let on_disk = std::fs::read(&path).map(|b| b.iter().filter(|c| **c == b'\n').count()).unwrap_or(0);
+                res.oracle_violations.push(OracleViolation {
+                    case_id: i as i64,
+                    what: format!(
+                        "EventLog::append returned Ok for frame #{} of the log (type {ty}, {} bytes), but a fresh reader of the file finds {on_disk} complete lines of {} appended; bytes after the previous frame: {:?}",
+                        appended.len() - 1,
+                        want.len(),
+                        appended.len(),
+                        clip(&String::from_utf8_lossy(&fresh))
+                    ),
+                    class: "appended_frame_not_on_disk".into(),
+                    replay: json!({"frame": clip(&line), "type": ty, "frames_appended": appended.len(), "lines_on_disk": on_disk, "seed": seed,
+                        "how": "append these frames to a new rip_log::EventLog one by one; after each append read the file with a new handle"}),
+                });
+            }
+            // resynchronise on whatever is there so that one lost flush is one report
+            offset = std::fs::metadata(&path).map(|m| m.len()).unwrap_or(offset);
+            continue;
+        }
+        offset += want.len() as u64;
+        // a second log object on the same path: replay = everything appended so far
+        if appended.len() % 97 == 0 {
+            second_handle_check(&path, &appended, seed, res);
+        }
+    }
+    second_handle_check(&path, &appended, seed, res);
+    // the writer is still alive here (as the authority's is while it serves replays)
+    drop(log);
+}
+
+fn second_handle_check(path: &std::path::Path, appended: &[String], seed: u64, res: &mut RunResult) {
+    res.oracle_checks += 1;
+    let got = rip_log::EventLog::new(path).and_then(|l| l.replay());
+    let ok = match &got {
+        Ok(evs) => evs.len() == appended.len() && evs.iter().zip(appended.iter()).all(|(e, l)| serde_json::to_string(e).ok().as_deref() == Some(l.as_str())),
+        Err(_) => false,
+    };
+    if !ok && !res.oracle_violations.iter().any(|v| v.class == "appended_frame_not_on_disk") {
+        res.oracle_violations.push(OracleViolation {
+            case_id: -1,
+            what: format!(
+                "a second EventLog on the same file replays {} while {} frames were appended (append returned Ok for each)",
+                match &got {
+                    Ok(evs) => format!("{} frames", evs.len()),
+                    Err(e) => format!("with error `{e}`"),
+                },
+                appended.len()
+            ),
+            class: "appended_frame_not_on_disk".into(),
+            replay: json!({"frames_appended": appended.len(), "seed": seed}),
+        });
+    }
+}
+
 fn clip(s: &str) -> String {
     s.chars().take(300).collect()
 }
@@ -953,7 +1061,7 @@ fn deep_frames() -> Vec<(String, Event)> {
 fn main() {
     let a = parse_args();
     let mut res = RunResult::new("C03", &a);
-    res.rule = "(a) one case = one JSON document for serde_json::from_str::<Event>, generated from the extracted schema (every variant x {all fields, minimal, random presence, explicit nulls} x aliases x unicode/large/nested/number corner values) plus one of 15 malformed/unusual variations, plus hand-built frames holding Some(Null) and deeply nested payloads, plus frames produced by the real provider path (SSE bytes -> SseDecoder -> EventFrameMapper, incl. float and deeply nested payloads), plus real log lines produced by the histories; the model decodes/re-encodes the same document inside Coq. (b) one history = 5-40 continuity operations and provider-less session runs on the real store; four views compared frame for frame. non-trivial = accepted documents with at least one optional/vector/Value field or a variation; distinct by document text".into();
+    res.rule = "(a) one case = one JSON document for serde_json::from_str::<Event>, generated from the extracted schema (every variant x {all fields, minimal, random presence, explicit nulls} x aliases x unicode/large/nested/number corner values) plus one of 15 malformed/unusual variations, plus hand-built frames holding Some(Null) and deeply nested payloads, plus frames produced by the real provider path (SSE bytes -> SseDecoder -> EventFrameMapper, incl. float and deeply nested payloads), plus real log lines produced by the histories; the model decodes/re-encodes the same document inside Coq. (b) one history = 5-40 continuity operations, provider-less session runs (tool output chunks), tool tasks (output deltas while running), cache-loss steps (continuity_streams/ or one thread's sidecar removed while the store lives) and replay_events calls on the real store; the views are compared DURING the history (after every frame a live subscriber has, once its emit step is over, a fresh reader of events.jsonl / the sidecar must find it; replay_events = log) and frame for frame at the end; 4 fixed regression histories run first. (c) every accepted document is appended to a real EventLog and looked up by a fresh reader after append returns. non-trivial = accepted documents with at least one optional/vector/Value field or a variation; distinct by document text".into();
     let schema_path = a.extra.get("schema").cloned().unwrap_or_else(|| "coq/Gen/event_schema.json".to_string());
     let schema: Value = serde_json::from_str(&std::fs::read_to_string(&schema_path).unwrap_or_else(|e| panic!("cannot read {schema_path}: {e}"))).expect("schema json");
     let variants: Vec<Value> = schema["variants"].as_array().cloned().unwrap_or_default();
@@ -1089,6 +1197,8 @@ fn main() {
         }
     }
     w.flush();
+    let docs: Vec<&str> = cases.iter().map(|c| c.doc_text.as_str()).collect();
+    store_oracle(&docs, a.seed, &mut res);
     res.bump_by("doc.accepted", accepted);
     res.distinct_nontrivial = distinct.count();
     res.case_files = w.files.iter().map(|p| p.display().to_string()).collect();
